@@ -3340,8 +3340,10 @@ check_freshness(coap_session_t *session, coap_pdu_t *rcvd, coap_pdu_t *sent,
       if (!echo_pdu)
         return 0;
       if (!coap_insert_option(echo_pdu, COAP_OPTION_ECHO,
-                              coap_opt_length(opt), coap_opt_value(opt)))
+                              coap_opt_length(opt), coap_opt_value(opt))) {
+        coap_delete_pdu(echo_pdu);
         goto not_sent;
+      }
       if (have_data) {
         coap_add_data(echo_pdu, data_len, data);
       }
